@@ -23,7 +23,8 @@ package object
 //gvc:  ensures nn: err == nil ==> obj != nil
 //gvc:  ensures commit: err == nil && typeis(obj, "Commit") ==> field(obj, "Commit.Hash") == h && keyid(field(obj, "Commit.Hash")) == keyid(h) && forall(b, spec_child(keyid(h), b) ==> b == keyid(field(obj, "Commit.TreeHash")) || (!spec_shallow(keyid(h)) && exists(i, 0, len(field(obj, "Commit.ParentHashes")), b == keyid(field(obj, "Commit.ParentHashes")[i]))))
 //gvc:  ensures tree: err == nil && typeis(obj, "Tree") ==> forall(b, spec_child(keyid(h), b) ==> exists(i, 0, len(field(obj, "Tree.Entries")), b == keyid(field(obj, "Tree.Entries")[i].Hash)))
-//gvc:  ensures blobs: err == nil && typeis(obj, "Tree") ==> forall(i, 0, len(field(obj, "Tree.Entries")), (field(obj, "Tree.Entries")[i].Mode | 0o755) == 0o100755 ==> forall(b, !spec_child(keyid(field(obj, "Tree.Entries")[i].Hash), b)))
+//gvc:  ensures blobs: err == nil && typeis(obj, "Tree") ==> forall(i, 0, len(field(obj, "Tree.Entries")), (field(obj, "Tree.Entries")[i].Mode | 0o755) == 0o100755 ==> spec_leaf(keyid(field(obj, "Tree.Entries")[i].Hash)))
+//gvc:  ensures leafdef: forall(k, spec_leaf(k) ==> forall(b, !spec_child(k, b)))
 //gvc:  ensures tag: err == nil && typeis(obj, "Tag") ==> forall(b, spec_child(keyid(h), b) ==> b == keyid(field(obj, "Tag.Target")))
 //gvc:end
 
